@@ -132,16 +132,16 @@ def engine_modes(prog, tier):
     sqs = [G.sq('d', 4), G.sq('a', 5), G.sq('h', 1)] if tier == 'quick' else [G.sq('d', 4), G.sq('a', 8), G.sq('h', 1), G.sq('c', 3), G.sq('e', 2), G.sq('h', 8), G.sq('a', 1)]
     for gold in (True, False):
         for step in range(4):
-            for trapped in ((False,) if tier == 'quick' else (False, True)):
-                out.append(('play %s step %d%s' % ('gold' if gold else 'silver', step, ' captured' if trapped else ''),
+            for trapped in (('sym',) if tier == 'quick' else ('sym', False, True)):
+                out.append(('play %s step %d%s' % ('gold' if gold else 'silver', step, ' captured' if trapped is True else (' captured?' if trapped == 'sym' else '')),
                             inputs.play_state(prog, gold, step, trapped=trapped)))
             if step == 0:
                 continue
             for s in sqs:
                 out.append(('play %s step %d PossiblePull(%s)' % ('gold' if gold else 'silver', step, G.name(s)),
-                            inputs.play_state(prog, gold, step, 'PossiblePull', s, 'Horse')))
+                            inputs.play_state(prog, gold, step, 'PossiblePull', s, 'Horse', trapped='sym')))
                 out.append(('play %s step %d MustCompletePush(%s)' % ('gold' if gold else 'silver', step, G.name(s)),
-                            inputs.play_state(prog, gold, step, 'MustCompletePush', s, 'Dog')))
+                            inputs.play_state(prog, gold, step, 'MustCompletePush', s, 'Dog', trapped='sym')))
     return out
 
 
@@ -195,7 +195,8 @@ def check_c19(ctx, prog, tier):
         nrun += run_entry(ctx, I, ent['GameState::has_move'],
                           lambda I_, st, gsv=gsv: [inputs.ref_to(I_, st, 'gs', gsv), inputs.ref_to(I_, st, 'pb', inputs.board(prog))],
                           'has_move / ' + desc)
-        if ent.get('Display') and (tier != 'quick' or desc in ('setup gold', 'play silver step 0', 'play gold step 2')):
+        if ent.get('Display') and (desc in ('setup gold', 'play silver step 0', 'play gold step 2') or
+                                   (tier != 'quick' and 'Pull' not in desc and 'Push' not in desc and 'captured' not in desc)):
             nrun += run_entry(ctx, I, ent['Display'],
                               lambda I_, st, gsv=gsv: [inputs.ref_to(I_, st, 'gs', gsv),
                                                        Ref(inputs.ref_to(I_, st, 'f', Tok('fmt', 'std::fmt::Formatter')).cell, (), True)],
